@@ -21,6 +21,8 @@ type c18Rcpt struct {
 	Name    string `json:"name"`
 	Refused bool   `json:"refused"` // refused at RCPT
 	Code    int    `json:"code"`    // final verdict if accepted: 250 or a negative marker code
+	// scripted peer only: the positive code RCPT is answered with (0: 250; 251 "will forward", 252)
+	AcceptCode int `json:"accept_code,omitempty"`
 }
 
 type c18Txn struct {
@@ -49,6 +51,11 @@ func runC18(sc []c18Txn) ([]*c18Case, string, error) {
 	for _, tx := range sc {
 		if tx.DataRefused {
 			fake = true
+		}
+		for _, r := range tx.Rcpts {
+			if r.AcceptCode != 0 {
+				fake = true
+			}
 		}
 	}
 	var srv *drv.Server
@@ -220,7 +227,11 @@ func c18FakePeer(conn net.Conn, sc []c18Txn) {
 				say("550 5.1.1 no such user")
 			} else {
 				accepted = append(accepted, r)
-				say("250 2.1.5 ok")
+				if r.AcceptCode != 0 {
+					say("%d 2.1.5 ok, in a way", r.AcceptCode)
+				} else {
+					say("250 2.1.5 ok")
+				}
 			}
 		case u == "DATA":
 			if ti >= 0 && ti < len(sc) && sc[ti].DataRefused {
@@ -293,6 +304,22 @@ func genC18(maxTxn, maxR int) [][]c18Txn {
 			sc = append(sc, t)
 		}
 		out = append(out, sc)
+		// the same sequence against a scripted peer that accepts recipients with other positive codes too
+		if i%3 == 1 {
+			fs := make([]c18Txn, len(sc))
+			k := 0
+			for j := range sc {
+				fs[j] = sc[j]
+				fs[j].Rcpts = append([]c18Rcpt{}, sc[j].Rcpts...)
+				for q := range fs[j].Rcpts {
+					if !fs[j].Rcpts[q].Refused {
+						fs[j].Rcpts[q].AcceptCode = []int{251, 250, 252}[k%3]
+						k++
+					}
+				}
+			}
+			out = append(out, fs)
+		}
 		// the same sequence against the scripted peer, one transaction ended by a refused DATA command
 		if i%3 == 0 && len(sc) > 1 {
 			fs := append([]c18Txn{}, sc...)
